@@ -1,8 +1,12 @@
 // Command c08: searchers and correspondence for C08 (clones of a compiled script run concurrently
 // without interference).
 //
-// Streams (each runs in-process, and again inside a `-race` build of this command that the command
-// builds and re-executes itself; the child attributes every race report to the trial that produced it)
+// Streams (every concurrent trial runs in a WORKER process: this binary re-executed with the environment
+// variable VERIF_C08_CHILD=<json childSpec>, see worker.go — a Go runtime fatal error such as "concurrent
+// map writes" cannot be recovered, so the parent only supervises: a worker that dies is turned into a
+// violation whose input is the trial that was in flight, and a new worker continues with the next
+// scenario. The same loop runs again inside a `-race` build of this command that the command builds
+// itself; that worker attributes every race report to the trial that produced it)
 //
 //	clones    K ∈ {2,4,8} clones of one compiled program run on K goroutines (random GOMAXPROCS, Gosched
 //	          injected through tengo.VerifProbe, Run/RunContext mixed) — per-clone error text + GetAll must
@@ -20,7 +24,6 @@ package main
 
 import (
 	"context"
-	"encoding/json"
 	"flag"
 	"fmt"
 	"os"
@@ -64,6 +67,15 @@ type Trial struct {
 	Mode     string   `json:"mode"` // "clones" | "api"
 	Seed     uint64   `json:"seed"`
 	Race     bool     `json:"race_build"`
+	Plans    [][]Op   `json:"plans,omitempty"` // api: the calls of goroutine i (filled in by apiTrial; a replay re-runs exactly these)
+}
+
+// Op is one API call of an api trial. Kind: 0 Get, 1 GetAll, 2 IsDefined, 3 Size, 4 Set(id), 5 Clone+Set+Run,
+// 6 Run, 7 RunContext.
+type Op struct {
+	Kind int    `json:"kind"`
+	Name string `json:"name,omitempty"`
+	Val  int64  `json:"val"`
 }
 
 var (
@@ -268,6 +280,7 @@ type soloRes struct {
 
 func solo(sc Scenario, k int) soloRes {
 	var r soloRes
+	mark("solo", Trial{Scenario: sc, K: k})
 	for i := 0; i < k; i++ {
 		if i > 0 && sc.IDVar == "" && !sc.Builtin {
 			r.clone = append(r.clone, r.clone[0]) // all clones are configured alike: same program, same inputs
@@ -375,6 +388,7 @@ func cloneTrial(t Trial, so soloRes) {
 		runClone(w, sc, false)
 	}
 	before := snapshot(orig)
+	mark("trial", t)
 	cl := make([]*tengo.Compiled, t.K)
 	for i := range cl {
 		cl[i] = orig.Clone()
@@ -462,22 +476,21 @@ func apiTrial(t Trial, r *lib.RNG) {
 		}
 	}
 	warm()
-	type op struct {
-		kind int
-		name string
-		val  int64
-	}
 	g := t.K
-	plans := make([][]op, g)
-	for i := range plans {
-		n, vals := 6+r.Intn(10), 50
-		if raceEnabled {
-			n, vals = 4+r.Intn(5), 3
-		}
-		for j := 0; j < n; j++ {
-			plans[i] = append(plans[i], op{kind: r.Weighted([]int{4, 3, 3, 2, 3, 3, 2, 1}), name: lib.Pick(r, names), val: int64(r.Intn(vals))})
+	if len(t.Plans) != g { // a replayed trial brings its plans; otherwise they are drawn here
+		t.Plans = make([][]Op, g)
+		for i := range t.Plans {
+			n, vals := 6+r.Intn(10), 50
+			if raceEnabled {
+				n, vals = 4+r.Intn(5), 3
+			}
+			for j := 0; j < n; j++ {
+				t.Plans[i] = append(t.Plans[i], Op{Kind: r.Weighted([]int{4, 3, 3, 2, 3, 3, 2, 1}), Name: lib.Pick(r, names), Val: int64(r.Intn(vals))})
+			}
 		}
 	}
+	plans := t.Plans
+	mark("trial", t)
 	bad := make([]string, g)
 	old := setSched(t)
 	var wg sync.WaitGroup
@@ -493,35 +506,35 @@ func apiTrial(t Trial, r *lib.RNG) {
 			}()
 			<-start
 			for _, o := range plans[i] {
-				switch o.kind {
+				switch o.Kind {
 				case 0:
-					if v := c.Get(o.name); v == nil || v.Name() != o.name {
-						bad[i] = "Get(" + o.name + ") returned a variable with another name"
+					if v := c.Get(o.Name); v == nil || v.Name() != o.Name {
+						bad[i] = "Get(" + o.Name + ") returned a variable with another name"
 					}
 				case 1:
 					if vs := c.GetAll(); len(vs) != len(names) {
 						bad[i] = fmt.Sprintf("GetAll returned %d variables, want %d", len(vs), len(names))
 					}
 				case 2:
-					c.IsDefined(o.name)
+					c.IsDefined(o.Name)
 				case 3:
 					if c.Size() <= 0 {
 						bad[i] = "Size() <= 0"
 					}
 				case 4:
 					if sc.IDVar != "" {
-						if err := c.Set(sc.IDVar, o.val); err != nil {
+						if err := c.Set(sc.IDVar, o.Val); err != nil {
 							bad[i] = "Set: " + err.Error()
 						}
 					}
 				case 5:
 					x := c.Clone()
 					if sc.IDVar != "" {
-						_ = x.Set(sc.IDVar, o.val)
+						_ = x.Set(sc.IDVar, o.Val)
 					}
 					got := runOne(x, false) + " | " + snapshot(x)
 					// a failing run leaves globals of the state at clone time: only successful runs are a function of id
-					if want := soloClone(o.val); strings.HasPrefix(want, "ok") && got != want {
+					if want := soloClone(o.Val); strings.HasPrefix(want, "ok") && got != want {
 						bad[i] = "clone taken during concurrent use: " + got + " ; alone: " + want
 					}
 				case 6:
@@ -1107,99 +1120,61 @@ func lastLines(s string, n int) string {
 	return strings.Join(ls, " / ")
 }
 
-func runRaceChild(replay string) {
-	work := filepath.Join(harnessRoot(), ".work", "c08-"+strconv.Itoa(os.Getpid()))
-	if err := os.MkdirAll(work, 0o755); err != nil {
-		res.Extra["race_build"] = "no work dir: " + err.Error()
-		return
-	}
-	defer os.RemoveAll(work)
-	t0 := time.Now()
-	bin, err := buildRace(work)
-	if err != nil {
-		// no race detector in this environment: the functional streams stand alone; say so
-		res.Extra["race_build"] = "unavailable: " + err.Error()
-		res.Dist("race-build-unavailable")
-		return
-	}
-	res.Extra["race_build_s"] = time.Since(t0).Seconds()
-	outp := filepath.Join(work, "child.json")
-	args := []string{"-c08child", "-tier", flags.Tier, "-seed", strconv.FormatUint(flags.Seed, 10), "-out", outp, "-known", flags.Known}
-	if replay != "" {
-		args = append(args, "-replay", replay)
-	}
-	cmd := exec.Command(bin, args...)
-	cmd.Env = append(os.Environ(), "GORACE=halt_on_error=0 exitcode=0 history_size=3 log_path="+filepath.Join(work, "race"))
-	cmd.Stderr = os.Stderr
-	cmd.Stdout = os.Stderr
-	err = cmd.Run()
-	b, rerr := os.ReadFile(outp)
-	var child lib.Result
-	if rerr != nil || json.Unmarshal(b, &child) != nil {
-		res.Disagree(lib.Disagreement{Stream: "race-child", Input: strings.Join(args, " "), Model: "the -race child finishes and writes its result",
-			Impl: fmt.Sprintf("exit: %v; no readable result", err)})
-		return
-	}
-	for _, v := range child.Violations {
-		res.Violate(v)
-	}
-	for _, d := range child.Disagreements {
-		res.Disagree(d)
-	}
-	for _, id := range child.KnownHits {
-		addKnown(id)
-	}
-	for k, n := range child.Streams {
-		res.Streams["race:"+k] += n
-	}
-	for k, n := range child.Distribution {
-		res.Distribution["race:"+k] += n
-	}
-	res.Evaluations += child.Evaluations
-	res.Distinct += child.Distinct
-	res.Skipped += child.Skipped
-	res.Extra["race_child_wall_s"] = child.WallS
-}
-
 // ---- main ----
 
-func replayFile(path string, r *lib.RNG) {
-	b, err := os.ReadFile(path)
-	if err != nil {
-		fmt.Fprintln(os.Stderr, "c08:", err)
-		os.Exit(3)
+// mainLoop walks the scenario sequence of this seed. Scenario number idx draws everything from the idx-th
+// fork of rng, so a worker that starts at `start` only advances rng over the scenarios it leaves out.
+func mainLoop(rng *lib.RNG, start int) {
+	nGen, reps := flags.Scale(150, 1000), flags.Scale(6, 10)
+	if raceEnabled {
+		nGen, reps = flags.Scale(18, 70), flags.Scale(2, 3)
 	}
-	var rp struct {
-		Violations []struct {
-			Input json.RawMessage `json:"input"`
-		} `json:"violations"`
+	treps := reps * 2
+	if raceEnabled {
+		treps = reps
 	}
-	_ = json.Unmarshal(b, &rp)
-	for _, v := range rp.Violations {
-		var t Trial
-		if json.Unmarshal(v.Input, &t) != nil || t.Scenario.Src == "" {
-			continue
-		}
-		if t.Race && !raceEnabled {
-			continue // re-run by the child
-		}
-		if t.Mode == "api" {
-			apiTrial(t, r)
-		} else {
-			so := solo(t.Scenario, t.K)
-			if so.err == nil && !so.unstable {
-				for i := 0; i < 5; i++ {
-					cloneTrial(t, so)
-				}
+	idx := 0
+	for _, sc := range targeted() {
+		r := rng.Fork()
+		if idx >= start {
+			curIndex = idx
+			ks := []int{2, 4, 8}
+			if raceEnabled && !flags.Thorough() {
+				ks = []int{2, 8}
 			}
+			runScenario(sc, r, treps, ks)
+			res.Dist("targeted:" + sc.Name)
+			flushWorker()
 		}
-		res.Count("replay", string(v.Input), true)
+		idx++
 	}
+	for i := 0; i < nGen; i++ {
+		r := rng.Fork()
+		if idx >= start {
+			curIndex = idx
+			sc := genScenario(r, i)
+			ks := []int{2, 4, 8}
+			if raceEnabled && !flags.Thorough() {
+				ks = []int{ks[i%3]}
+			}
+			runScenario(sc, r, reps, ks)
+			flushWorker()
+		}
+		idx++
+	}
+	if raceEnabled {
+		r := rng.Fork()
+		if idx >= start {
+			curIndex = idx
+			raceRegionTrials(r)
+		}
+	}
+	res.Extra["t_solo_s"], res.Extra["t_clones_s"], res.Extra["t_api_s"] = tSolo.Seconds(), tClone.Seconds(), tApi.Seconds()
 }
 
 func main() {
-	flag.BoolVar(&isChild, "c08child", false, "internal: this is the -race child")
-	flag.BoolVar(&noRace, "c08norace", false, "do not build/run the -race child")
+	flag.BoolVar(&isChild, "c08child", false, "internal: this is a worker process (see VERIF_C08_CHILD)")
+	flag.BoolVar(&noRace, "c08norace", false, "do not build/run the -race worker")
 	show := flag.Bool("c08show", false, "print the solo results of the targeted scenarios and exit")
 	flags = lib.ParseFlags()
 	if *show {
@@ -1223,61 +1198,51 @@ func main() {
 			rlog = &raceLog{path: p + "." + strconv.Itoa(os.Getpid())}
 		}
 	}
-	rng := lib.NewRNG(flags.Seed) // the -race child walks a prefix of the parent's program sequence
+	rng := lib.NewRNG(flags.Seed) // the -race worker walks a prefix of the same program sequence
+
+	if env := os.Getenv(childEnv); env != "" || isChild {
+		workerMain(env, rng)
+		return
+	}
+
+	// the parent: runs nothing concurrent itself
+	work := filepath.Join(harnessRoot(), ".work", "c08-"+strconv.Itoa(os.Getpid()))
+	if err := os.MkdirAll(work, 0o755); err != nil {
+		fmt.Fprintln(os.Stderr, "c08: no work dir:", err)
+		os.Exit(3)
+	}
+	defer os.RemoveAll(work)
+	self, err := os.Executable()
+	if err != nil {
+		fmt.Fprintln(os.Stderr, "c08: cannot find my own binary:", err)
+		os.Exit(3)
+	}
 
 	if flags.Replay != "" {
-		replayFile(flags.Replay, rng)
-		if !isChild && !noRace {
-			runRaceChild(flags.Replay)
-		}
+		replayParent(flags.Replay, self, work)
 		res.Write(flags.Out)
 		return
 	}
 
-	nGen, reps := flags.Scale(150, 1000), flags.Scale(6, 10)
-	if raceEnabled {
-		nGen, reps = flags.Scale(18, 70), flags.Scale(2, 3)
+	supervise(self, false, work)
+	for i, n := 0, len(targeted())+flags.Scale(150, 1000); i < n; i++ {
+		rng.U64() // the forks the workers' scenarios took: the shape stream keeps its place in the sequence
 	}
-	treps := reps * 2
-	if raceEnabled {
-		treps = reps
+	drv, err := lib.StartDriver(flags.Driver)
+	if err != nil {
+		fmt.Fprintln(os.Stderr, "c08:", err)
+		os.Exit(3)
 	}
-	for _, sc := range targeted() {
-		ks := []int{2, 4, 8}
-		if raceEnabled && !flags.Thorough() {
-			ks = []int{2, 8}
-		}
-		runScenario(sc, rng.Fork(), treps, ks)
-		res.Dist("targeted:" + sc.Name)
+	res.DriverUsed = drv != nil
+	shapeStream(drv, rng.Fork(), flags.Scale(400, 5000))
+	if drv != nil {
+		drv.Close()
 	}
-	for i := 0; i < nGen; i++ {
-		r := rng.Fork()
-		sc := genScenario(r, i)
-		ks := []int{2, 4, 8}
-		if raceEnabled && !flags.Thorough() {
-			ks = []int{ks[i%3]}
-		}
-		runScenario(sc, r, reps, ks)
-	}
-	if raceEnabled {
-		raceRegionTrials(rng.Fork())
-	}
-	res.Extra["t_solo_s"], res.Extra["t_clones_s"], res.Extra["t_api_s"] = tSolo.Seconds(), tClone.Seconds(), tApi.Seconds()
-	if !isChild {
-		drv, err := lib.StartDriver(flags.Driver)
-		if err != nil {
-			fmt.Fprintln(os.Stderr, "c08:", err)
-			os.Exit(3)
-		}
-		res.DriverUsed = drv != nil
-		shapeStream(drv, rng.Fork(), flags.Scale(400, 5000))
-		if drv != nil {
-			drv.Close()
-		}
-		runC08Probes()
-		lib.RunProbes(res, "C08", flags.Known)
-		if !noRace {
-			runRaceChild("")
+	runC08Probes()
+	lib.RunProbes(res, "C08", flags.Known)
+	if !noRace {
+		if bin := raceBinary(work); bin != "" {
+			supervise(bin, true, work)
 		}
 	}
 	res.Write(flags.Out)
